@@ -384,8 +384,17 @@ def check(pid, tier='quick', jobs=None, seed=0):
         try:
             extra = fin(tier, agg) or {}
         except HarnessFault as e:
-            print('HARNESS-FAULT: %s' % e)
-            return 2
+            # the vacuity guards protect a PASS verdict.  When violations
+            # were found (e.g. the library hangs or raises everywhere, so
+            # that whole families produced nothing) the verdict is FAIL and
+            # the guard must not turn it into a harness fault.
+            known0 = load_known(pid)
+            if not any(v['sig'] not in known0 for v in agg['violations']):
+                print('HARNESS-FAULT: %s' % e)
+                return 2
+            print('NOTE: vacuity guard not satisfied (%s); violations are '
+                  'reported below' % e)
+            extra = {'vacuity_guard_failed': str(e)}
 
     known = load_known(pid)
     by_sig = collections.OrderedDict()
